@@ -60,6 +60,21 @@ def stepStore (st : St) (toks : List String) : Option (St × String) :=
         some (st, if pfx == "storelk" then ans ++ " R+R-" else ans)
       | _, _ => none
     else none
+  | [pfx, "q1", what, i] =>
+    -- first_index / last_index (exclusive end of the last range) / number of ranges / sum of the range lengths
+    if pfx == "store" || pfx == "storelk" then
+      match i.toNat? with
+      | some i =>
+        let ans := match valueAt st i with
+          | some a =>
+            if what == "min" then (match a.rs.head? with | some r => toString r.1 | none => "none")
+            else if what == "max" then (match a.rs.getLast? with | some r => toString r.2 | none => "none")
+            else if what == "nranges" then toString a.rs.length
+            else toString ((a.rs.map fun r => r.2 - r.1).sum)
+          | none => "err-notfound"
+        some (st, if pfx == "storelk" then ans ++ " R+R-" else ans)
+      | none => none
+    else none
   | [pfx, "isempty", i] =>
     if pfx == "store" || pfx == "storelk" then
       match i.toNat? with
